@@ -86,6 +86,18 @@ class Builtins:
             raise Unsupported('endswith with symbolic suffix')
         return self.ex.ok(SBool(self._endswith(bound.t, suf.lit)), st)
 
+    def b_str_find(self, bound, args, kw, st, fr):
+        "s.find(literal): concrete for literals, otherwise an uninterpreted position >= -1 (a function of both texts)"
+        sub = args[0]
+        if len(args) != 1 or not isinstance(sub, SStr):
+            raise Unsupported('str.find arguments')
+        if bound.lit is not None and sub.lit is not None:
+            return self.ex.ok(SInt(bound.lit.find(sub.lit)), st)
+        from .strings import str_find
+        r = str_find(bound.t, sub.t)
+        st.assume(r >= -1)
+        return self.ex.ok(SInt(r), st)
+
     def b_str_startswith(self, bound, args, kw, st, fr):
         from .tokens import starts_with
         pre = args[0]
@@ -309,6 +321,32 @@ class Builtins:
         a = C.to_any(args[0])
         lit = args[1]
         return self.ex.ok(SBool(a.t == C.to_any(lit).t), st)
+
+    def b_spec_str_has(self, args, kw, st, fr):
+        "str_has(s, literal): literal occurs in s  (s.find(literal) >= 0)"
+        a, b = args
+        if a.lit is not None and b.lit is not None:
+            return self.ex.ok(SBool(b.lit in a.lit), st)
+        from .strings import str_find
+        return self.ex.ok(SBool(str_find(a.t, b.t) >= 0), st)
+
+    def b_spec_visited(self, args, kw, st, fr):
+        "visited(x) inside a @loops block of a for loop: x is one of the elements already iterated over"
+        f = st.envs.get(fr.fid, {}).get('__visited__')
+        cur = fr
+        while f is None and cur is not None and cur.parent_fid is not None:
+            cur = self.ex.frames.get(cur.parent_fid)
+            f = st.envs.get(cur.fid, {}).get('__visited__') if cur is not None else None
+        if f is None:
+            raise Unsupported('visited() outside a for-loop invariant')
+        x = args[0]
+        return self.ex.ok(SBool(f.fn(x.t)), st)
+
+    def b_spec_snap_vote(self, args, kw, st, fr):
+        "snap_vote(n, c): the tally of candidate c in the copy of the candidates saved when round n+1 began (E.rounds[n])"
+        from .models import snapvote_fn
+        n, c = args
+        return self.ex.ok(SVal(snapvote_fn(self.ex)(n.t, c.t)), st)
 
     def b_spec_any_mem(self, args, kw, st, fr):
         L, x = args
